@@ -3,6 +3,7 @@ package interp
 import (
 	"go/ast"
 	"go/build"
+	"go/build/constraint"
 	"go/parser"
 	"path"
 	"path/filepath"
@@ -19,6 +20,23 @@ func (interp *Interpreter) buildOk(ctx *build.Context, name, src string) (bool, 
 	f, err := parser.ParseFile(interp.fset, name, src, parser.PackageClauseOnly|parser.ParseComments)
 	if err != nil {
 		return false, err
+	}
+	// A //go:build line, if present, takes precedence over // +build lines.
+	for _, g := range f.Comments {
+		for _, c := range g.List {
+			if !constraint.IsGoBuild(c.Text) {
+				continue
+			}
+			x, err := constraint.Parse(c.Text)
+			if err != nil {
+				return false, err
+			}
+			if !x.Eval(func(tag string) bool { return matchBuildTag(ctx, tag) }) {
+				return false, nil
+			}
+			setYaegiTags(ctx, f.Comments)
+			return true, nil
+		}
 	}
 	for _, g := range f.Comments {
 		// in file, evaluate the AND of multiple line build constraints
